@@ -103,7 +103,8 @@ def _case_chunk_bounds(case, ctx):
     nontriv = (n % (cs - ov) != 0) or n < cs or ov % 2 == 1
     ctx.count(1, key=hkey('cb', n, cs, ov), nontrivial=nontriv, cell=('chunk_bounds', 'ov%d' % (ov % 2)))
     ctx.sample(case, every=2003)
-    r = call(lambda: list(chunk_bounds(n, cs, overlap=ov)))
+    npint = (n + cs + ov) % 3 == 0      # NumPy integer arguments are as good as Python ints
+    r = call(lambda: list(chunk_bounds(np.int64(n), np.int32(cs), overlap=np.int64(ov)) if npint else chunk_bounds(n, cs, overlap=ov)))
     if not r.ok:
         ctx.violation('raised', case, 'chunk_bounds raised %r' % r.exc, tb=r.tb)
         return
